@@ -24,6 +24,29 @@ use crate::runner::{Case, Engine, Outcome, Tier};
 
 pub struct Net;
 
+/// Message payload with instance counting: `P_LIVE` = instances created (new / clone) minus instances dropped.
+pub static P_LIVE: std::sync::atomic::AtomicIsize = std::sync::atomic::AtomicIsize::new(0);
+#[derive(Debug)]
+pub struct P(pub u128);
+impl P {
+    fn new(v: u128) -> P {
+        P_LIVE.fetch_add(1, Ordering::SeqCst);
+        P(v)
+    }
+}
+impl Clone for P {
+    fn clone(&self) -> P {
+        P::new(self.0)
+    }
+}
+impl Drop for P {
+    fn drop(&mut self) {
+        P_LIVE.fetch_sub(1, Ordering::SeqCst);
+    }
+}
+/// number of times the model with a given index was dropped
+static NODE_DROPS: Mutex<Vec<usize>> = Mutex::new(Vec::new());
+
 #[derive(Clone, Debug)]
 enum Rec {
     Init(usize),
@@ -78,12 +101,22 @@ struct ModelSpec {
 struct Node {
     id: usize,
     sh: Arc<Shared>,
-    outs: HashMap<usize, Output<u128>>,
-    reqs: HashMap<usize, Requestor<u128, u128>>,
+    outs: HashMap<usize, Output<P>>,
+    reqs: HashMap<usize, Requestor<P, u128>>,
     react: Vec<POp>,
     initops: Vec<POp>,
     panic_on: Option<u128>,
     sleep_on: Option<u128>,
+}
+
+impl Drop for Node {
+    fn drop(&mut self) {
+        let mut d = NODE_DROPS.lock().unwrap();
+        if d.len() <= self.id {
+            d.resize(self.id + 1, 0);
+        }
+        d[self.id] += 1;
+    }
 }
 
 impl Node {
@@ -97,13 +130,13 @@ impl Node {
             self.sh.log.lock().unwrap().push(Rec::Sent(self.id, payload, k, child, op.query));
             if op.query {
                 if let Some(r) = self.reqs.get_mut(&op.port) {
-                    let replies: Vec<u128> = r.send(child).await.collect();
+                    let replies: Vec<u128> = r.send(P::new(child)).await.collect();
                     if !replies.is_empty() {
                         self.sh.log.lock().unwrap().push(Rec::Reply(self.id, payload, replies));
                     }
                 }
             } else if let Some(o) = self.outs.get_mut(&op.port) {
-                o.send(child).await;
+                o.send(P::new(child)).await;
             }
         }
     }
@@ -117,8 +150,15 @@ impl Node {
     fn leave(&self) {
         self.sh.busy.lock().unwrap()[self.id] = false;
     }
+    /// models with an odd index panic at the end of the handler (after their sends), the others on entry
+    fn late_fault(&self, p: u128) {
+        if self.panic_on == Some(p) && self.id % 2 == 1 {
+            self.leave();
+            panic!("boom {p}");
+        }
+    }
     fn fault(&self, p: u128) {
-        if self.panic_on == Some(p) {
+        if self.panic_on == Some(p) && self.id % 2 == 0 {
             self.leave();
             panic!("boom {p}");
         }
@@ -126,22 +166,28 @@ impl Node {
             std::thread::sleep(std::time::Duration::from_millis(400));
         }
     }
-    async fn input(&mut self, p: u128, cx: &mut Context<Self>) {
+    async fn input(&mut self, msg: P, cx: &mut Context<Self>) {
+        let p = msg.0;
         self.enter();
         self.sh.log.lock().unwrap().push(Rec::Handle(self.id, p));
         self.fault(p);
         self.sh.ctx_names.lock().unwrap().push((self.id, cx.name().to_string()));
         self.run_script(false, p).await;
+        self.late_fault(p);
         self.sh.log.lock().unwrap().push(Rec::Done(self.id, p));
         self.leave();
+        drop(msg); // the message lives as long as its handler
     }
-    async fn replier(&mut self, p: u128) -> u128 {
+    async fn replier(&mut self, msg: P) -> u128 {
+        let p = msg.0;
         self.enter();
         self.sh.log.lock().unwrap().push(Rec::Handle(self.id, p));
         self.fault(p);
         self.run_script(false, p).await;
+        self.late_fault(p);
         self.sh.log.lock().unwrap().push(Rec::Done(self.id, p));
         self.leave();
+        drop(msg);
         p * 3 + self.id as u128 + 1
     }
 }
@@ -156,6 +202,172 @@ impl Model for Node {
         self.leave();
         self.into()
     }
+}
+
+/// Wake-on-drop scenario (`wod ...`): models own objects whose destructors wake other, pending models.
+type WakerSlot = Arc<Mutex<Option<std::task::Waker>>>;
+struct Gate(WakerSlot);
+impl std::future::Future for Gate {
+    type Output = ();
+    fn poll(self: std::pin::Pin<&mut Self>, cx: &mut std::task::Context<'_>) -> std::task::Poll<()> {
+        *self.0.lock().unwrap() = Some(cx.waker().clone());
+        std::task::Poll::Pending
+    }
+}
+struct WakeOnDrop(WakerSlot);
+impl Drop for WakeOnDrop {
+    fn drop(&mut self) {
+        let w = self.0.lock().unwrap().take();
+        if let Some(w) = w {
+            w.wake();
+        }
+    }
+}
+struct Wod {
+    id: usize,
+    drops: Arc<Mutex<Vec<usize>>>,
+    slot: WakerSlot,
+    _owned: Vec<WakeOnDrop>,
+    out: Output<u64>,
+    boom: bool,
+}
+impl Drop for Wod {
+    fn drop(&mut self) {
+        self.drops.lock().unwrap()[self.id] += 1;
+    }
+}
+impl Wod {
+    async fn wait(&mut self, _x: u64) {
+        Gate(self.slot.clone()).await;
+    }
+    async fn ping(&mut self, _x: u64) {}
+    async fn trigger(&mut self, x: u64) {
+        self.out.send(x).await;
+        if self.boom {
+            panic!("boom");
+        }
+    }
+}
+impl Model for Wod {}
+
+/// `wod <threads> <n> waiters <csv|-> edges <a>b,..|-> panic <k|-> to <csv|->`
+fn wod(threads: usize, n: usize, waiters: &[usize], edges: &[(usize, usize)], panicker: Option<usize>, to: &[usize]) -> (String, bool) {
+    let drops = Arc::new(Mutex::new(vec![0usize; n]));
+    let slots: Vec<WakerSlot> = (0..n).map(|_| Arc::new(Mutex::new(None))).collect();
+    let boxes: Vec<Mailbox<Wod>> = (0..n).map(|_| Mailbox::new()).collect();
+    let addrs: Vec<Address<Wod>> = boxes.iter().map(|b| b.address()).collect();
+    let mut si = SimInit::with_num_threads(threads);
+    for (i, mb) in boxes.into_iter().enumerate() {
+        let mut out = Output::default();
+        if panicker == Some(i) || (panicker.is_none() && i == 0) {
+            for r in to {
+                out.connect(Wod::ping, &addrs[*r]);
+            }
+        }
+        let owned = edges.iter().filter(|(a, _)| *a == i).map(|(_, b)| WakeOnDrop(slots[*b].clone())).collect();
+        si = si.add_model(
+            Wod { id: i, drops: drops.clone(), slot: slots[i].clone(), _owned: owned, out, boom: panicker == Some(i) },
+            mb,
+            format!("w{i}"),
+        );
+    }
+    let (tx, rx) = std::sync::mpsc::channel();
+    let (waiters, to_len) = (waiters.to_vec(), to.len());
+    let h = std::thread::spawn(move || {
+        let r = std::panic::catch_unwind(std::panic::AssertUnwindSafe(move || {
+            let (mut sim, sched) = si.init(MonotonicTime::EPOCH).unwrap();
+            for w in &waiters {
+                let _ = sim.process_event(Wod::wait, 0, &addrs[*w]);
+            }
+            let res = match panicker {
+                Some(k) => sim.process_event(Wod::trigger, 1, &addrs[k]).map_err(|e| exec_err(&e)),
+                None if to_len > 0 => sim.process_event(Wod::trigger, 1, &addrs[0]).map_err(|e| exec_err(&e)),
+                None => Ok(()),
+            };
+            drop(addrs);
+            drop(sched);
+            drop(sim);
+            res
+        }));
+        let _ = tx.send(r);
+    });
+    match rx.recv_timeout(std::time::Duration::from_secs(20)) {
+        Ok(r) => {
+            let _ = h.join();
+            drop(slots);
+            let once = drops.lock().unwrap().iter().filter(|x| **x == 1).count();
+            match r {
+                Ok(res) => (format!("wod {} returned once={once}/{n}", res.map(|_| "ok".to_string()).unwrap_or_else(|e| e.split(' ').next().unwrap_or("").to_string())), false),
+                Err(_) => (format!("wod - panicked once={once}/{n}"), false),
+            }
+        }
+        Err(_) => ("wod - hung".to_string(), true),
+    }
+}
+
+/// Models of the nested-simulation scenario (`nested <k> <j>`).
+struct Idle {
+    id: usize,
+    drops: Arc<Mutex<Vec<usize>>>,
+}
+impl Drop for Idle {
+    fn drop(&mut self) {
+        self.drops.lock().unwrap()[self.id] += 1;
+    }
+}
+impl Idle {
+    async fn poke(&mut self, _x: u64) {}
+}
+impl Model for Idle {}
+struct Host {
+    inner_drops: Arc<Mutex<Vec<usize>>>,
+}
+impl Host {
+    /// builds a single-threaded simulation with `j` idle models, runs one event through it and drops it — all from
+    /// inside a handler of the enclosing simulation
+    async fn run_inner(&mut self, j: usize) {
+        *self.inner_drops.lock().unwrap() = vec![0; j];
+        let mut si = SimInit::with_num_threads(1);
+        let mut first = None;
+        for i in 0..j {
+            let mb = Mailbox::new();
+            if first.is_none() {
+                first = Some(mb.address());
+            }
+            si = si.add_model(Idle { id: i, drops: self.inner_drops.clone() }, mb, format!("inner{i}"));
+        }
+        if let Ok((mut sim, _s)) = si.init(MonotonicTime::EPOCH) {
+            if let Some(a) = first {
+                let _ = sim.process_event(Idle::poke, 1, &a);
+            }
+            drop(sim);
+        }
+    }
+}
+impl Model for Host {}
+
+fn nested(k: usize, j: usize) -> String {
+    let outer_drops = Arc::new(Mutex::new(vec![0usize; k]));
+    let inner_drops = Arc::new(Mutex::new(Vec::new()));
+    let mut si = SimInit::with_num_threads(1);
+    for i in 0..k {
+        si = si.add_model(Idle { id: i, drops: outer_drops.clone() }, Mailbox::new(), format!("outer{i}"));
+    }
+    let hmb = Mailbox::new();
+    let haddr = hmb.address();
+    si = si.add_model(Host { inner_drops: inner_drops.clone() }, hmb, "host");
+    let res = match si.init(MonotonicTime::EPOCH) {
+        Ok((mut sim, _s)) => {
+            let r = sim.process_event(Host::run_inner, j, &haddr);
+            drop(sim);
+            r.is_ok()
+        }
+        Err(_) => false,
+    };
+    drop(haddr);
+    let o = outer_drops.lock().unwrap().iter().filter(|x| **x == 1).count();
+    let i = inner_drops.lock().unwrap().iter().filter(|x| **x == 1).count();
+    format!("nested {} outer={o}/{k} inner={i}/{j}", if res { "ok" } else { "err" })
 }
 
 struct NodeProto {
@@ -176,8 +388,9 @@ struct Bench {
     chan_ids: Vec<usize>,
     sim: Simulation,
     addrs: Vec<Address<Node>>,
-    sinks: HashMap<usize, EventBuffer<u128>>,
-    srcs: HashMap<usize, nexosim::ports::EventSource<u128>>,
+    sinks: HashMap<usize, EventBuffer<P>>,
+    srcs: HashMap<usize, nexosim::ports::EventSource<P>>,
+    sched: nexosim::simulation::Scheduler,
     _orphans: Vec<Mailbox<Node>>,
 }
 
@@ -204,7 +417,7 @@ fn qname(specs: &[ModelSpec], i: usize) -> String {
     }
 }
 
-fn build(specs: &[ModelSpec], srcs_spec: &BTreeMap<usize, Vec<ConnSpec>>, timeout_ms: u64, threads: usize, sh: &Arc<Shared>) -> Result<Bench, (String, HashMap<usize, EventBuffer<u128>>)> {
+fn build(specs: &[ModelSpec], srcs_spec: &BTreeMap<usize, Vec<ConnSpec>>, timeout_ms: u64, threads: usize, sh: &Arc<Shared>) -> Result<Bench, (String, HashMap<usize, EventBuffer<P>>)> {
     let n = specs.len();
     let mut boxes: Vec<Option<Mailbox<Node>>> = specs.iter().map(|s| Some(Mailbox::with_capacity(s.cap.max(1)))).collect();
     let addrs: Vec<Address<Node>> = boxes.iter().map(|b| b.as_ref().unwrap().address()).collect();
@@ -212,7 +425,7 @@ fn build(specs: &[ModelSpec], srcs_spec: &BTreeMap<usize, Vec<ConnSpec>>, timeou
         addrs.iter().map(|a| format!("{:?}", a).split('"').nth(1).and_then(|s| s.parse().ok()).unwrap_or(0)).collect();
     CHAN_IDS.lock().unwrap().clone_from(&chan_ids);
     nexosim::verif_hooks::channel_ops_start();
-    let mut sinks: HashMap<usize, EventBuffer<u128>> = HashMap::new();
+    let mut sinks: HashMap<usize, EventBuffer<P>> = HashMap::new();
     for s in specs {
         for conns in s.ports.values() {
             for c in conns {
@@ -231,16 +444,16 @@ fn build(specs: &[ModelSpec], srcs_spec: &BTreeMap<usize, Vec<ConnSpec>>, timeou
         for (port, conns) in &s.ports {
             let is_q = conns.iter().any(|c| c.query);
             if is_q {
-                let mut r: Requestor<u128, u128> = Requestor::new();
+                let mut r: Requestor<P, u128> = Requestor::new();
                 for c in conns {
                     let (add, fm, fr) = (c.add, c.fmod, c.fres);
                     if fm == 0 && add == 0 {
                         r.connect(Node::replier, &addrs[c.dst]);
                     } else if fm == 0 {
-                        r.map_connect(move |x: &u128| *x + add, |y: u128| y, Node::replier, &addrs[c.dst]);
+                        r.map_connect(move |x: &P| P::new(x.0 + add), |y: u128| y, Node::replier, &addrs[c.dst]);
                     } else {
                         r.filter_map_connect(
-                            move |x: &u128| if *x % fm == fr { Some(*x + add) } else { None },
+                            move |x: &P| if x.0 % fm == fr { Some(P::new(x.0 + add)) } else { None },
                             |y: u128| y,
                             Node::replier,
                             &addrs[c.dst],
@@ -249,7 +462,7 @@ fn build(specs: &[ModelSpec], srcs_spec: &BTreeMap<usize, Vec<ConnSpec>>, timeou
                 }
                 reqs.insert(*port, r);
             } else {
-                let mut o: Output<u128> = Output::new();
+                let mut o: Output<P> = Output::new();
                 for c in conns {
                     let (add, fm, fr) = (c.add, c.fmod, c.fres);
                     if c.to_sink {
@@ -257,17 +470,17 @@ fn build(specs: &[ModelSpec], srcs_spec: &BTreeMap<usize, Vec<ConnSpec>>, timeou
                         if fm == 0 && add == 0 {
                             o.connect_sink(sink);
                         } else if fm == 0 {
-                            o.map_connect_sink(move |x: &u128| *x + add, sink);
+                            o.map_connect_sink(move |x: &P| P::new(x.0 + add), sink);
                         } else {
-                            o.filter_map_connect_sink(move |x: &u128| if *x % fm == fr { Some(*x + add) } else { None }, sink);
+                            o.filter_map_connect_sink(move |x: &P| if x.0 % fm == fr { Some(P::new(x.0 + add)) } else { None }, sink);
                         }
                     } else if fm == 0 && add == 0 {
                         o.connect(Node::input, &addrs[c.dst]);
                     } else if fm == 0 {
-                        o.map_connect(move |x: &u128| *x + add, Node::input, &addrs[c.dst]);
+                        o.map_connect(move |x: &P| P::new(x.0 + add), Node::input, &addrs[c.dst]);
                     } else {
                         o.filter_map_connect(
-                            move |x: &u128| if *x % fm == fr { Some(*x + add) } else { None },
+                            move |x: &P| if x.0 % fm == fr { Some(P::new(x.0 + add)) } else { None },
                             Node::input,
                             &addrs[c.dst],
                         );
@@ -302,7 +515,7 @@ fn build(specs: &[ModelSpec], srcs_spec: &BTreeMap<usize, Vec<ConnSpec>>, timeou
             }
         }
     }
-    let mut srcs: HashMap<usize, nexosim::ports::EventSource<u128>> = HashMap::new();
+    let mut srcs: HashMap<usize, nexosim::ports::EventSource<P>> = HashMap::new();
     for (sid, conns) in srcs_spec {
         let mut src = nexosim::ports::EventSource::new();
         for c in conns {
@@ -310,9 +523,9 @@ fn build(specs: &[ModelSpec], srcs_spec: &BTreeMap<usize, Vec<ConnSpec>>, timeou
             if fm == 0 && add == 0 {
                 src.connect(Node::input, &addrs[c.dst]);
             } else if fm == 0 {
-                src.map_connect(move |x: &u128| *x + add, Node::input, &addrs[c.dst]);
+                src.map_connect(move |x: &P| P::new(x.0 + add), Node::input, &addrs[c.dst]);
             } else {
-                src.filter_map_connect(move |x: &u128| if *x % fm == fr { Some(*x + add) } else { None }, Node::input, &addrs[c.dst]);
+                src.filter_map_connect(move |x: &P| if x.0 % fm == fr { Some(P::new(x.0 + add)) } else { None }, Node::input, &addrs[c.dst]);
             }
         }
         srcs.insert(*sid, src);
@@ -327,12 +540,17 @@ fn build(specs: &[ModelSpec], srcs_spec: &BTreeMap<usize, Vec<ConnSpec>>, timeou
         }
     }
     match si.init(MonotonicTime::EPOCH) {
-        Ok((sim, _sched)) => Ok(Bench { chan_ids, sim, addrs, sinks, srcs, _orphans: orphans }),
+        Ok((sim, sched)) => Ok(Bench { chan_ids, sim, addrs, sinks, srcs, sched, _orphans: orphans }),
         Err(e) => Err((exec_err(&e), sinks)),
     }
 }
 
 static CHAN_IDS: Mutex<Vec<usize>> = Mutex::new(Vec::new());
+
+/// number of threads of this process
+fn thread_count() -> usize {
+    std::fs::read_dir("/proc/self/task").map(|d| d.count()).unwrap_or(0)
+}
 
 /// What `run()` must report according to the ground truth (pushes − pops per mailbox, from the verif hook):
 /// Deadlock listing exactly the simulation models with queued messages (registration order) and their counts,
@@ -359,7 +577,7 @@ fn sorted_join(mut v: Vec<String>) -> String {
     v.join(" ")
 }
 
-fn render(res: &str, recs: &[Rec], sinks: &mut HashMap<usize, EventBuffer<u128>>, extra_r: Option<String>) -> String {
+fn render(res: &str, recs: &[Rec], sinks: &mut HashMap<usize, EventBuffer<P>>, extra_r: Option<String>) -> String {
     let mut is = vec![];
     let mut hs = vec![];
     let mut rs = vec![];
@@ -380,7 +598,7 @@ fn render(res: &str, recs: &[Rec], sinks: &mut HashMap<usize, EventBuffer<u128>>
     for k in ids {
         let s = sinks.get_mut(&k).unwrap();
         for v in s.by_ref() {
-            ks.push(format!("{k}:{v}"));
+            ks.push(format!("{k}:{}", v.0));
         }
     }
     format!("{res} | I {} | H {} | R {} | K {}", sorted_join(is), sorted_join(hs), sorted_join(rs), sorted_join(ks))
@@ -483,17 +701,17 @@ impl Engine for Net {
         "net"
     }
     fn serves(&self) -> &'static [&'static str] {
-        &["C02", "C03", "C04", "C06", "C11", "C16"]
+        &["C02", "C03", "C04", "C06", "C11", "C16", "C19"]
     }
     fn isolated(&self) -> bool {
         true
     }
     fn crash_blame(&self) -> Vec<&'static str> {
-        vec!["C04"]
+        vec!["C04", "C19"]
     }
     fn pinned(&self, line: &str) -> bool {
         // the bench description is kept whole by the minimiser; only driver commands are dropped
-        !(line.starts_with("ev ") || line.starts_with("qr "))
+        !(line.starts_with("ev ") || line.starts_with("qr ") || line.starts_with("later "))
     }
     fn nontrivial_rule(&self) -> &'static str {
         "a case is a bench of 2-7 models (hierarchies of depth 0-3, mailbox capacities 1-4, orphan mailboxes, sinks), \
@@ -524,6 +742,11 @@ impl Engine for Net {
         let mut timeout_ms = 0u64;
         let mut srcs_spec: BTreeMap<usize, Vec<ConnSpec>> = BTreeMap::new();
         let mut fatal_seen = false;
+        let mut dropped = false;
+        let mut timeout_seen = false;
+        NODE_DROPS.lock().unwrap().clear();
+        let base_threads = thread_count();
+        let p_live0 = P_LIVE.load(Ordering::SeqCst);
         for l in lines {
             let w: Vec<&str> = l.split_whitespace().collect();
             let log_start = sh.log.lock().unwrap().len();
@@ -623,13 +846,13 @@ impl Engine for Net {
                     let sid: usize = sid.parse().unwrap();
                     let res = match b.srcs.get_mut(&sid) {
                         Some(src) => {
-                            let action = src.event(p.parse::<u128>().unwrap());
+                            let action = src.event(P::new(p.parse::<u128>().unwrap()));
                             b.sim.process(action)
                         }
                         None => {
                             // a source without any connection: the action does nothing (but is still refused after a fatal error)
-                            let mut empty = nexosim::ports::EventSource::<u128>::new();
-                            b.sim.process(empty.event(p.parse::<u128>().unwrap()))
+                            let mut empty = nexosim::ports::EventSource::<P>::new();
+                            b.sim.process(empty.event(P::new(p.parse::<u128>().unwrap())))
                         }
                     };
                     let recs = sh.log.lock().unwrap()[log_start..].to_vec();
@@ -655,7 +878,7 @@ impl Engine for Net {
                     let b = bench.as_mut().unwrap();
                     let j: usize = j.parse().unwrap();
                     let addr = b.addrs[j].clone();
-                    let res = b.sim.process_event(Node::input, p.parse::<u128>().unwrap(), &addr);
+                    let res = b.sim.process_event(Node::input, P::new(p.parse::<u128>().unwrap()), &addr);
                     let recs = sh.log.lock().unwrap()[log_start..].to_vec();
                     any_err |= res.is_err();
                     let rs = res.as_ref().map(|_| "ok".to_string()).unwrap_or_else(|e| exec_err(e));
@@ -665,7 +888,7 @@ impl Engine for Net {
                     let b = bench.as_mut().unwrap();
                     let j: usize = j.parse().unwrap();
                     let addr = b.addrs[j].clone();
-                    let res = b.sim.process_query(Node::replier, p.parse::<u128>().unwrap(), &addr);
+                    let res = b.sim.process_query(Node::replier, P::new(p.parse::<u128>().unwrap()), &addr);
                     let recs = sh.log.lock().unwrap()[log_start..].to_vec();
                     any_err |= res.is_err();
                     let (rs, extra) = match &res {
@@ -674,21 +897,142 @@ impl Engine for Net {
                     };
                     render(&rs, &recs, &mut b.sinks, extra)
                 }
+                ["wod", th, n, "waiters", ws, "edges", es, "panic", pk, "to", to] => {
+                    let csv = |x: &str| -> Vec<usize> { if x == "-" { vec![] } else { x.split(',').map(|v| v.parse().unwrap()).collect() } };
+                    let n: usize = n.parse().unwrap();
+                    let edges: Vec<(usize, usize)> = if *es == "-" { vec![] } else { es.split(',').map(|e| { let mut it = e.split('>'); (it.next().unwrap().parse().unwrap(), it.next().unwrap().parse().unwrap()) }).collect() };
+                    let (r, hung) = wod(th.parse().unwrap(), n, &csv(ws), &edges, pk.parse().ok(), &csv(to));
+                    let expect_res = if pk.parse::<usize>().is_ok() { "panic" } else { "ok" };
+                    if hung {
+                        out.hung = true;
+                    }
+                    if r != format!("wod {expect_res} returned once={n}/{n}") {
+                        out.monitor.push(("C19".into(), format!("`{l}`: models own objects that wake other pending models when dropped; the simulation was {} and then dropped: `{r}` (the drop must return and every model must be dropped exactly once)", if expect_res == "panic" { "made to fail by a panicking handler that had just sent events" } else { "left idle" })));
+                    }
+                    out.nontrivial = true;
+                    out.tags.push("wod".into());
+                    r
+                }
+                ["nested", k, j] => {
+                    let (k, j): (usize, usize) = (k.parse().unwrap(), j.parse().unwrap());
+                    let r = nested(k, j);
+                    if r != format!("nested ok outer={k}/{k} inner={j}/{j}") {
+                        out.monitor.push(("C19".into(), format!("a single-threaded simulation with {j} model(s) was created and dropped inside a handler of another single-threaded simulation with {k} idle model(s), then the outer one was dropped: {r} (every model must be dropped exactly once)")));
+                    }
+                    out.nontrivial = true;
+                    out.tags.push("nested".into());
+                    r
+                }
+                ["later", j, p, secs] if bench.is_some() => {
+                    // an action that is still pending in the scheduler queue when the simulation is dropped
+                    let b = bench.as_mut().unwrap();
+                    let j: usize = j.parse().unwrap();
+                    let addr = b.addrs[j].clone();
+                    let d = std::time::Duration::from_secs(secs.parse::<u64>().unwrap().max(1));
+                    match b.sched.schedule_event(d, Node::input, P::new(p.parse::<u128>().unwrap()), &addr) {
+                        Ok(()) => "ok".into(),
+                        Err(_) => "rejected".into(),
+                    }
+                }
+                ["dropsim"] if bench.is_some() => {
+                    let b = bench.take().unwrap();
+                    let nsim = specs.iter().filter(|s| s.sim).count();
+                    let handled_before = sh.log.lock().unwrap().len();
+                    let Bench { sim, addrs, sinks, srcs, sched, _orphans, .. } = b;
+                    // the drop runs on a helper thread so that a drop that never returns is detected
+                    let (tx, rx) = std::sync::mpsc::channel();
+                    let h = std::thread::spawn(move || {
+                        let r = std::panic::catch_unwind(std::panic::AssertUnwindSafe(move || {
+                            drop(srcs);
+                            drop(addrs);
+                            drop(sched);
+                            drop(sim);
+                        }));
+                        let _ = tx.send(r.is_ok());
+                    });
+                    let verdict = rx.recv_timeout(std::time::Duration::from_secs(20));
+                    let returned = match verdict {
+                        Ok(ok) => {
+                            let _ = h.join();
+                            if ok { "returned" } else { "panicked" }
+                        }
+                        Err(_) => {
+                            out.hung = true;
+                            "hung"
+                        }
+                    };
+                    // worker threads are joined by the drop: wait briefly for the count to come back to the baseline
+                    let mut threads_now = thread_count();
+                    for _ in 0..200 {
+                        if threads_now <= base_threads {
+                            break;
+                        }
+                        std::thread::sleep(std::time::Duration::from_millis(5));
+                        threads_now = thread_count();
+                    }
+                    let drops = NODE_DROPS.lock().unwrap().clone();
+                    let once = (0..specs.len()).filter(|i| specs[*i].sim && drops.get(*i).copied().unwrap_or(0) == 1).count();
+                    let bad: Vec<String> = (0..specs.len())
+                        .filter(|i| specs[*i].sim && drops.get(*i).copied().unwrap_or(0) != 1)
+                        .map(|i| format!("{} dropped {} times", qname(&specs, i), drops.get(i).copied().unwrap_or(0)))
+                        .collect();
+                    drop(_orphans);
+                    drop(sinks);
+                    let leaked = P_LIVE.load(Ordering::SeqCst) - p_live0;
+                    std::thread::sleep(std::time::Duration::from_millis(2));
+                    let ran_after = sh.log.lock().unwrap().len() != handled_before;
+                    let excluded = timeout_seen;
+                    if !excluded {
+                        if returned != "returned" {
+                            out.monitor.push(("C19".into(), format!("dropping the simulation {returned} ({threads} thread(s))")));
+                        }
+                        if !bad.is_empty() {
+                            out.monitor.push(("C19".into(), format!("after dropping the simulation: {}", bad.join(", "))));
+                        }
+                        if leaked != 0 {
+                            out.monitor.push(("C19".into(), format!("{leaked} message instance(s) still alive after the simulation, its handles, the orphan mailboxes and the sinks were dropped")));
+                        }
+                        if threads_now > base_threads {
+                            out.monitor.push(("C19".into(), format!("{} thread(s) left running after the simulation was dropped", threads_now - base_threads)));
+                        }
+                        if ran_after {
+                            out.monitor.push(("C19".into(), "model code ran after the simulation was dropped".into()));
+                        }
+                    }
+                    out.tags.push("dropsim".into());
+                    if excluded {
+                        "dropped excluded".into()
+                    } else {
+                        format!(
+                            "dropped {returned} once={once}/{nsim} leaked={leaked} threads={} after={}",
+                            if threads_now <= base_threads { "ok".to_string() } else { format!("leak{}", threads_now - base_threads) },
+                            if ran_after { "ran" } else { "quiet" }
+                        )
+                    }
+                }
+                ["ev", ..] | ["qr", ..] | ["sev", ..] | ["later", ..] | ["dropsim"] if dropped => "no-sim".into(),
                 ["ev", ..] | ["qr", ..] | ["sev", ..] if init_failed => "terminated | I  | H  | R  | K ".into(),
+                ["later", ..] | ["dropsim"] if init_failed => "no-sim".into(),
                 _ => "bad-op".into(),
             };
+            if w[0] == "dropsim" && bench.is_none() && r.starts_with("dropped") {
+                dropped = true;
+            }
+            if r.starts_with("timeout") {
+                timeout_seen = true;
+            }
             let recs = sh.log.lock().unwrap()[log_start..].to_vec();
             n_handled += recs.iter().filter(|r| matches!(r, Rec::Handle(..))).count();
             if matches!(w[0], "init" | "ev" | "qr" | "sev") {
                 let first = r.split(" | ").next().unwrap_or("").to_string();
-                if fatal_seen {
+                if fatal_seen && first != "no-sim" {
                     if first != "terminated" {
                         out.monitor.push(("C11".into(), format!("`{l}` returned `{first}` after a fatal error: it must return Terminated")));
                     } else if threads == 1 && timeout_ms == 0 && recs.iter().any(|x| matches!(x, Rec::Handle(..) | Rec::Init(_))) {
                         out.monitor.push(("C11".into(), format!("`{l}` returned Terminated but model code ran")));
                     }
                 }
-                if !(first == "ok" || first == "bad-query" || first == "bad-op" || first == "terminated") {
+                if !(first == "ok" || first == "bad-query" || first == "bad-op" || first == "terminated" || first == "no-sim") {
                     fatal_seen = true;
                 }
             }
@@ -815,7 +1159,49 @@ impl Engine for Net {
 /// whatever the capacities; dedicated variants add one deterministic stall (query loop-back, saturating self-send)
 /// and/or orphan mailboxes.
 fn gen_case(rng: &mut Rng, _idx: usize, tier: Tier, focus: &str) -> Case {
-    let exec = match rng.below(5) {
+    if (focus == "C19" && rng.chance(1, 10)) || rng.chance(1, 60) {
+        return Case { lines: vec!["case net exec st".into(), format!("nested {} {}", rng.below(5), rng.below(5))] };
+    }
+    if (focus == "C19" && rng.chance(1, 5)) || rng.chance(1, 60) {
+        // models owning wake-on-drop objects; some models pending; optionally a handler that sends and then panics
+        let n = rng.range(2, 6) as usize;
+        let threads = *rng.pick(&[1u64, 2, 2, 3, 4]);
+        let panicker = if rng.chance(2, 3) { Some(0usize) } else { None };
+        let mut waiters = vec![];
+        for i in 1..n {
+            if rng.chance(1, 2) {
+                waiters.push(i);
+            }
+        }
+        let mut edges = vec![];
+        for a in 0..n {
+            for b in &waiters {
+                if a != *b && rng.chance(1, 3) {
+                    edges.push(format!("{a}>{b}"));
+                }
+            }
+        }
+        let mut to = vec![];
+        for i in 1..n {
+            if !waiters.contains(&i) && rng.chance(2, 3) {
+                to.push(i.to_string());
+            }
+        }
+        let j = |v: Vec<String>| if v.is_empty() { "-".to_string() } else { v.join(",") };
+        return Case {
+            lines: vec![
+                "case net exec st".into(),
+                format!(
+                    "wod {threads} {n} waiters {} edges {} panic {} to {}",
+                    j(waiters.iter().map(|x| x.to_string()).collect()),
+                    j(edges),
+                    panicker.map(|x| x.to_string()).unwrap_or("-".into()),
+                    j(to)
+                ),
+            ],
+        };
+    }
+    let exec = match if focus == "C19" { 1 + rng.below(4) } else { rng.below(5) } {
         0 | 1 => "st".to_string(),
         2 => "mt2".into(),
         3 => "mt4".into(),
@@ -927,7 +1313,7 @@ fn gen_case(rng: &mut Rng, _idx: usize, tier: Tier, focus: &str) -> Case {
         _ => {}
     }
     // ---- fault variants (C11 / C16): panic in a (sub-)model, port send to a dropped mailbox, overrunning handler
-    let fault_kind = if focus == "C11" { rng.range(1, 4) } else if rng.chance(1, 8) { rng.range(1, 4) } else { 0 };
+    let fault_kind = if focus == "C11" { rng.range(1, 4) } else if focus == "C19" && rng.chance(1, 2) { 1 } else if rng.chance(1, 8) { rng.range(1, 4) } else { 0 };
     let fault_model = rng.below(n as u64) as usize;
     let dead_idx = total;
     let mut fault_lines: Vec<String> = Vec::new();
@@ -1035,6 +1421,20 @@ fn gen_case(rng: &mut Rng, _idx: usize, tier: Tier, focus: &str) -> Case {
     if stall != 0 {
         lines.push(format!("ev {stall_model} {TRIG}"));
         lines.push(format!("ev {} 5", rng.below(n as u64)));
+    }
+    // drop the simulation (with its scheduler handle, addresses and sources) at some point of the driver sequence:
+    // idle, deadlocked, failed, with scheduled actions still pending
+    if focus == "C19" || rng.chance(1, 4) {
+        let first_cmd = lines.iter().position(|l| l == "init").unwrap() + 1;
+        let at = first_cmd + rng.below((lines.len() - first_cmd + 1) as u64) as usize;
+        let mut ins = vec![];
+        for k in 0..rng.below(3) {
+            ins.push(format!("later {} {} {}", rng.below(n as u64), 40 + k, 1 + rng.below(5)));
+        }
+        ins.push("dropsim".to_string());
+        for (k, l) in ins.into_iter().enumerate() {
+            lines.insert(at + k, l);
+        }
     }
     Case { lines }
 }
